@@ -142,6 +142,11 @@ def grid_specs():
     a = [None, aligns[5], aligns[6], aligns[23]]
     for oo, ee, pp, aa in itertools.product(o, e, p, a):
         lay.append(("layout", oo, ee, pp, aa, None))
+    big = ("stretch", ("size", 80.0, "%"), ("size", 80.0, "%"))
+    mid = ("point", ("size", 35.0, "%"), ("size", 25.0, "%"))
+    lay.append(("layout", mid, big, None, None, None))
+    lay.append(("layout", mid, ("stretch", ("size", 80.0, "%"), ("size", 10.0, "%")), p[1], a[1], None))
+    lay.append(("layout", mid, ("stretch", ("size", 10.0, "%"), ("size", 80.0, "%")), None, None, None))
     lay.append(("layout", o[1], e[1], p[1], a[1], "align:left"))
     lay.append(("layout", o[1], e[1], p[1], a[1], "line:10%"))
     lay.append(("layout", None, None, None, None, "line:10%"))
@@ -269,10 +274,13 @@ def eval_receiver(spec):
         try:
             rel = a.as_percentage_of(640, 360)
             b2 = deep(rel)
+            twin = make(spec).as_percentage_of(640, 360)
             r = rel.fit_to_screen()
             kinds.append("fit-ok")
             if deep(rel) != b2:
                 v.append(("C18/receiver-modified/fit_to_screen/layout", {"spec": spec}))
+            if not (rel == twin) or hash(rel) != hash(twin):
+                v.append(("C18/receiver-no-longer-equal-to-identically-built-value/fit_to_screen", {"spec": spec}))
             if r is not rel and rel.origin and deep(r) == b2 and False:
                 pass
         except Exception as e:  # noqa
